@@ -2716,7 +2716,10 @@ impl CanonicalizeContext {
 				} else {
 					let child = as_element(child);
 					let child_name = name(&child);
-					if !(child_name == "msub" || child_name == "msup" || child_name == "msubsup") {
+					if !(child_name == "msub" || child_name == "msup" || child_name == "msubsup") ||
+					   !CanonicalizeContext::is_empty_element(as_element(child.children()[0])) {
+						// only empty-based scripts can be prescripts of a base further right;
+						// a script with a (non-leaf) base of its own would be dropped when the prescripts are gathered
 						break;
 					}
 				}
